@@ -3,7 +3,7 @@
 From Coq Require Import NArith List Bool.
 From Coq.Strings Require Import Byte.
 From LOF Require Import Base.Bytes Base.Res Model.Wire Model.Build Model.Parse Proofs.WireP Proofs.BuildP Proofs.NormP Model.BuildSw Proofs.HelloBaseP
-  Proofs.ParseRtAll6P Proofs.DecodedOpsP.
+  Proofs.ParseRtAll6P Proofs.DecodedOpsP Proofs.ParseSwAll2P Proofs.ParseSwAll3P Proofs.ParseSwRtP.
 Import ListNotations.
 Open Scope N_scope.
 
@@ -50,3 +50,13 @@ Theorem C13_decoded_values : forall m xid ops, pmsg_ok m = true -> xid < 4294967
             run_ops v ops = map (fun o => match o with OpLen => RLen (glen v) | OpMarshal => RBytes bytes end) ops.
 Proof. exact decoded_ops_repeatable. Qed.
 Print Assumptions C13_decoded_values.
+
+(* and for the switch-side kinds whose parsed value is the written value (C05's switch-side
+   theorem): features reply, port-status, flow-removed, packet-in with data, error, ... *)
+Theorem C13_decoded_switch_values : forall s xid ops,
+  sw_ok s = true -> sw_payload_ok s -> sw_payload_shaped s -> sw_plain s = true -> xid < 4294967296 ->
+  let bytes := wire (sw_tree xid s) in
+  exists v, parse_top bytes = Ok v /\
+            run_ops v ops = map (fun o => match o with OpLen => RLen (glen v) | OpMarshal => RBytes bytes end) ops.
+Proof. exact sw_decoded_ops_repeatable. Qed.
+Print Assumptions C13_decoded_switch_values.
